@@ -7,7 +7,7 @@ HOOK_COMMITS = ["57c9cc3"]
 # id -> (level category, technique, level text, level note, design ref, engine)
 CHECKS = {
  "C01": ("exploration", "bounded-exhaustive enumeration of packet values (per-field whole domains over two baselines) through the real encoder and decoder, both directions",
-         "Every Gen case (73 kinds x B0/B1 x every field's bounded domain: all 8-bit values, 16-bit boundary sets in quick / whole 16-bit domains in thorough, 32-bit boundary + byte-lane sets, every enumerant, flag subsets, all nibble pairs, counts 0..max, text) x both size modes is encoded, decoded and re-encoded: typed->wire->typed equality (Debug) and wire->typed->wire byte identity on every frame the encoder produced. Decoder-independent typed values cover the hand-written reader/writer pairs (ConInfo nibbles, SmallType durations, CimMode, RaceLaps, Fuel, Vehicle, allowed cars, multi-codepage MSO) and in-width multi-codepage text in all 30 text fields.",
+         "Every Gen case (73 kinds x B0/B1 x every field's bounded domain: all 8-bit values, 16-bit boundary sets in quick / whole 16-bit domains in thorough, 32-bit boundary + byte-lane sets, every enumerant, flag subsets, all nibble pairs, counts 0..max, list-element value sweeps at the first and at the last position, MAL/IPB element values, text) x both size modes is encoded, decoded and re-encoded: typed->wire->typed equality (Debug) and wire->typed->wire byte identity on every frame the encoder produced. Decoder-independent typed values cover the hand-written reader/writer pairs (ConInfo nibbles, SmallType durations, CimMode, RaceLaps, Fuel, Vehicle, allowed cars, multi-codepage MSO), every counted kind at 0, 1, 2 and the maximum number of elements in both modes, and in-width multi-codepage text in all 30 text fields.",
          "Field combinations beyond one-field-sweeps over two baselines are not explored; typed values of the Gen site come from decoding in-domain specification frames.", "DESIGN.md §4 C01", "E1"),
  "C02": ("model_checking",
          "bounded-exhaustive enumeration of an explicit layout model (spec table) with full conformance replay through the real codec",
@@ -15,16 +15,16 @@ CHECKS = {
          "Trusts the transcription in spec/insim_v9.spec (IP octet order and signedness of byte-identical fields deliberately not judged); typed values observed through serde rendering; text ASCII only here.",
          "DESIGN.md §4 C02", "E1+spec"),
  "C03": ("exploration", "bounded-exhaustive enumeration of encoder inputs (counts 0..255, texts 0..2N, decoded corpus) with a well-formedness oracle",
-         "Every encoder output is checked to be exactly one well-formed frame (multiple of 4, within the mode limit, right size byte, right count byte, decodes completely to the same kind, leaves a successor intact). Inputs: all Gen packets obtained by decoding specification frames, element counts 0..=255 for the seven counted kinds (legal ones must succeed with the specification length, oversize ones must be refused, never wrapped), texts of every length 0..=2N in all 30 text fields, every decoder-accepted 1-byte mutation of every reference frame, and MSO frames with every TextStart and high-byte fill (re-encode must not abort).",
+         "Every encoder output is checked to be exactly one well-formed frame (multiple of 4, within the mode limit, right size byte, right count byte, decodes completely to the same kind, leaves a successor intact). Inputs: all Gen packets obtained by decoding specification frames, element counts 0..=255 for the seven counted kinds (legal ones must succeed with the specification length, oversize ones must be refused, never wrapped), texts of every length 0..=2N in all 30 text fields, every decoder-accepted 1-byte mutation of every reference frame, MSO frames with every TextStart and high-byte fill, and a marker / double-byte corpus of MSO messages with every TextStart (re-encode must not abort).",
          "Refusal may be Err or panic for hand-built packets; only panics on decoder-produced packets are violations.", "DESIGN.md §4 C03", "E1"),
  "C04": ("exploration", "deviation-bounded exhaustive enumeration of byte buffers against a reference framing model",
-         "All 65536 (size,type) headers x fills x lengths, every 1-byte mutation (all 256 values) of every reference frame of every kind, 2-byte mutations of structure bytes, every truncation, all short buffers over a 16-symbol alphabet, in both modes: no panic, need-more leaves the buffer untouched, exactly the announced frame (>= 4 bytes) is removed, verdict independent of following bytes, successor frame intact.",
+         "All 65536 (size,type) headers x fills x lengths, every 1-byte mutation (all 256 values) of every reference frame of every kind, 2-byte mutations of structure bytes (all values) and of any two of the first 12 bytes (alphabet, thorough), adjacent-pair mutations over all 65536 values (inside every string-valued field in quick, everywhere in thorough), every truncation, all short buffers over a 16-symbol alphabet, in both modes: no panic, need-more leaves the buffer untouched, exactly the announced frame (>= 4 bytes) is removed, verdict independent of following bytes, successor frame intact.",
          "Byte strings at mutation distance > 2 from valid frames and longer than 8 bytes over the full byte alphabet are outside the bound.", "DESIGN.md §4 C04", "E1"),
  "C10": ("model_checking", "exhaustive exploration of the code-page automaton (all state x character transitions, all table cells, all short strings) against reference tables",
-         "The encoder/decoder are automata over the current code page. All (state, character) transitions over the union repertoire of the ten Windows pages (reference tables from CPython's codecs) plus characters in no page, every single-byte table cell, agreement ratios of every double-byte table against every reference, every double-byte character with trail byte 0x5E followed by every marker, all strings <= 4/5 over class representatives, all byte strings <= 4/5 over 22 decoder-relevant symbols (BOM shapes, markers, lead/trail bytes) and all ASCII strings <= 3 are checked.",
+         "The encoder/decoder are automata over the current code page. All (state, character) transitions over the union repertoire of the ten Windows pages (reference tables from CPython's codecs) plus characters in no page, every single-byte table cell, agreement ratios of every double-byte table against every reference, every double-byte character with trail byte 0x5E followed by every marker, every repertoire character followed by every page switch / reserved character in every state, all strings <= 4/5 over class representatives, all byte strings <= 4/5 over 22 decoder-relevant symbols (BOM shapes, markers, lead/trail bytes) and all ASCII strings <= 3 are checked.",
          "Reference tables are CPython's cp125x/cp932/cp936/cp949/cp950; DBCS tables compared by agreement ratio; private-use mappings excluded.", "DESIGN.md §4 C10", "E1"),
  "C11": ("exploration", "bounded-exhaustive enumeration of strings (lengths 0..2N, six families) in every text field, located by specification offsets",
-         "For all 30 text-bearing fields: fixed fields occupy exactly N bytes = truncate-then-NUL-pad of the encoded text; variable fields are NUL-padded multiples of 4 within the maximum; MST/MSX/MSL/MTC end in NUL for every string; decoding stops at the first NUL (also for hand-built field contents).",
+         "For all 30 text-bearing fields: fixed fields occupy exactly N bytes = truncate-then-NUL-pad of the encoded text; variable fields are NUL-padded multiples of 4 within the maximum; MST/MSX/MSL/MTC end in NUL for every string; decoding stops at the first NUL (also for hand-built field contents); both size modes; the SMX track field.",
          "Content expectation uses the implementation's own code-page encoding (judged by C10).", "DESIGN.md §4 C11", "E1"),
  "C12": ("exploration", "exhaustive enumeration of all strings to a length bound over a class alphabet",
          "All strings of length <= 5 (quick) / <= 7 (thorough) over 16 class representatives (caret, digits, escape letters, reserved characters, code-page letters, Latin-1/E/J characters) and all strings <= 3 over every reserved character and escape letter: unescape(escape(s)) = s, no raw reserved character, escape -> encode -> decode -> unescape = s, strip = reference stripper and idempotent.",
@@ -36,7 +36,7 @@ CHECKS = {
          "All variants of enum Track (list extracted from the source at build time): wire form = code NUL-padded, decodes back, display = code, reverse/open flags from the code suffix, open => no distance, licence constant per area; 281 M shaped 6-byte strings (upper/lower case, junk in padding) decode only if they are exactly a variant's wire form.",
          "6-byte values outside the shaped space are not enumerated.", "DESIGN.md §4 C14", "E1"),
  "C15": ("exploration", "exhaustive enumeration of 8/16-bit wire domains and boundary sets of 32-bit fields, both directions",
-         "All 256 race-length bytes, Laps(0..=2000), Hours(0..=300); all 23 time fields: every 16-bit wire value and 32-bit boundary/byte-lane sets through the full packet codec (meaning = w x resolution, exact re-encode), encode side floors to the resolution, out-of-range durations are refused.",
+         "All 256 race-length bytes, Laps(0..=2000), Hours(0..=300); all 23 time fields: every 16-bit wire value and 32-bit boundary/byte-lane sets through the full packet codec in both modes over both baselines (meaning = w x resolution, exact re-encode), encode side floors to the resolution, out-of-range durations are refused.",
          "32-bit fields are covered on boundary sets, not completely.", "DESIGN.md §4 C15", "E1"),
  "C16": ("exploration", "exhaustive enumeration of strings to a length bound and of all pairs/triples of parsed versions",
          "All strings <= 6/7 over a 13-symbol alphabet (no panic, watchdog for non-termination, print-reparse equality, letter case-insensitivity), all 8-byte wire forms of LFS's shape through the VER codec, all ordered pairs of parsed versions (antisymmetry, consistency with ==, number-letter-revision rule) and all triples of a stratified subset (transitivity).",
@@ -49,33 +49,33 @@ CHECKS = {
 
 E2_CHECKS = {
  "C05": ("model_checking", "explicit-state search (stateright BFS) whose transition function re-executes the real connection over a scripted transport; all partitions of the stream via state merging",
-         "Every partition of every short inbound stream (all sequences <= 3/4 over 6-8 frame kinds, both modes, both implementations) into transport reads is covered by merging states on (receive buffer, spare capacity, stream position, budgets); injected transient read errors (4 kinds, budget 1-2) and EOF at every point; sessions longer than the 6120-byte buffer. On every transition the results so far must equal the reference read loop's (one result per frame, in order, errors do not disturb successors, nothing lost after a transient error, Disconnected after EOF).",
+         "Every partition of every short inbound stream (all sequences <= 3/4 over 6-8 frame kinds, both modes, both implementations) into transport reads is covered by merging states on (receive buffer, spare capacity, stream position, budgets); injected transient read errors (4 kinds, budget 1-2) and EOF at every point; sessions longer than the 6120-byte buffer; frames whose parser wants more or less than they announce (short SMALL, MSO without NUL, over-running MCI) sharing reads with their successors. On every transition the results so far must equal the reference read loop's (one result per frame, in order, errors do not disturb successors, nothing lost after a transient error, Disconnected after EOF).",
          "Per-frame content expectation = the real codec on that frame alone. Long sessions use boundary-relative chunk sizes, not every k.", "DESIGN.md §4 C05", "E2"),
  "C06": ("model_checking", "explicit-state search over all transport acceptance patterns of the real write path",
          "For packet sequences over {4, 8, 12, 68, 228-byte frames}, every acceptance count at every transport write call (and Pending for tokio) is explored on both implementations and modes; on every transition the accumulated bytes are a prefix of the concatenated frames and complete when write() returns Ok.",
          "Acceptance counts for frames > 12 bytes are {1,2,3,4,n/2,n-1,n}.", "DESIGN.md §4 C06", "E2"),
  "C07": ("model_checking", "explicit-state search over received-packet histories, segmentations and reply-side acceptance patterns",
-         "Every single TINY (sub-type byte x request id), every kind's frame between two keep-alives, all sequences <= 3/4 over 5 frame kinds with every partition, and the reply split/delayed on the write side: outbound bytes are exactly one pong per keep-alive handed over, accepted before the hand-over, and nothing for anything else.",
+         "Every single TINY (sub-type byte x request id), every kind's frame between two keep-alives, all sequences <= 3/4 over 5 frame kinds with every partition, the reply split/delayed on the write side, and sequences over {keep-alive, VER 9, VER 8, SMALL} with the version gate on: outbound bytes are exactly one pong per keep-alive handed over, accepted before the hand-over, and nothing for anything else.",
          "quick tier samples request ids for non-zero sub-types (all 256 for sub-type 0); thorough covers all.", "DESIGN.md §4 C07", "E2"),
  "C09": ("model_checking", "explicit-state search over version values x gate setting x position x implementation",
-         "All 256 InSim version values x verify on/off x {blocking, tokio} x 4 positions x 2 modes, whole and byte-by-byte delivery, plus every other kind with the gate on: delivered iff (gate off or version 9), otherwise IncompatibleVersion(v); later packets unaffected.",
+         "All 256 InSim version values x verify on/off x {blocking, tokio} x 4 positions x 2 modes, whole and byte-by-byte delivery, pairs of VER packets (the gate applies to every one, not the first), the gate as set through the public builder (tcp and udp), plus every other kind with the gate on: delivered iff (gate off or version 9), otherwise IncompatibleVersion(v); later packets unaffected.",
          "none", "DESIGN.md §4 C09", "E2"),
  "C19": ("model_checking", "explicit-state search over readiness scripts and cancellation points of the real async read future (polled by hand under a paused clock)",
-         "For sequences over {keep-alive, SMALL, MSO}: at every suspension point the environment may deliver any k bytes / stay pending / accept any k reply bytes, and the caller may drop the read() future and start a new one (budget 2/4): the packets returned by all completed reads equal the uninterrupted session's and the outbound bytes are always a whole number of pongs plus a prefix of the one in progress.",
+         "For sequences over {keep-alive, SMALL, MSO}: at every suspension point the environment may deliver any k bytes / stay pending / accept any k reply bytes, and the caller may drop the read() future and start a new one (budget 2/4), or drop it and call write() instead: the packets returned by all completed reads equal the uninterrupted session's and the outbound bytes are always a whole number of pongs plus a prefix of the one in progress.",
          "Cancellation of write() is outside the property.", "DESIGN.md §4 C19", "E2"),
 }
 CHECKS.update(E2_CHECKS)
 HOOK_COMMITS.append("1b683f3")
 
 CHECKS["C08"] = ("model_checking", "explicit-state search over (receive buffer, spare capacity, adaptor buffer) with every transition executed on real loopback UDP sockets in lock-step",
-         "States are the connection's buffer/spare-capacity/adaptor-buffer triples reached by datagram histories (both adaptors, both modes); actions are datagrams of 6-16 compositions (1..255 packets, 4..1020 bytes); every spare-capacity value (multiples of 4 from 6120 down to 0 and across the reclaim) is reached and every composition is tried in it; oracle: the packets read equal the frames of the datagram just sent; every kind's packet leaves as exactly one datagram holding its frame.",
+         "States are the connection's buffer/spare-capacity/adaptor-buffer triples reached by datagram histories (both adaptors, both modes); actions are datagrams of 6-16 compositions (1..255 packets, 4..1020 bytes); every spare-capacity value (multiples of 4 from 6120 down to 0 and across the reclaim) is reached and every composition is tried in it; oracle: the packets read equal the frames of the datagram just sent; every kind's packet (both modes, up to the largest counted frames) leaves as exactly one datagram holding its frame.",
          "Loopback UDP, one datagram in flight; 400 ms search watchdog, witnesses re-confirmed with a 2 s watchdog.", "DESIGN.md §4 C08", "E2")
 
 CHECKS["C18"] = ("model_checking", "explicit-state search over all reachable states of the real Builder (setter histories replayed on fresh objects) against a reference builder, plus loopback connects",
          "All builder states reachable with a 33-setter (quick) / 43-setter (thorough) alphabet - each flag helper on/off, wholesale flag replacement, prefix / interval / name / password / request id present or absent, tcp, udp with and without local address, compressed, uncompressed, relay - are explored; on every transition isi() must not panic and must equal the reference builder's ISI (documented defaults, later calls override earlier ones). 72 connects (tcp / udp without / with local address x mode x blocking/tokio x 6 ISI configurations) check that the peer receives exactly the encoded ISI and nothing else.",
          "Setter arguments are limited to 2-3 representatives each.", "DESIGN.md §4 C18", "E2")
 CHECKS["C20"] = ("model_checking", "exhaustive enumeration of message schedules (partitions, interleavings, read sizes) executed on real loopback WebSocket connections",
-         "Adaptor level: every partition of an 8/12-byte stream into binary messages x 8 caller read sizes, text / ping / empty-binary messages inserted at every boundary, messages larger than the 1020-byte adaptor buffer: bytes read = concatenated binary payloads, close = 0-byte read. Connection level: frame sequences x message partitions give exactly the TCP reference results and Disconnected on close; every kind's packet leaves as exactly one binary message holding its frame.",
+         "Adaptor level: every partition of an 8/12-byte stream into binary messages x 8 caller read sizes, text / ping / empty-binary messages inserted at every boundary, messages larger than the 1020-byte adaptor buffer: bytes read = concatenated binary payloads, close = 0-byte read. Connection level: frame sequences x message partitions give exactly the TCP reference results and Disconnected on close; every kind's packet (both modes, up to the largest counted frames) and sequences of writes leave as exactly one binary message per packet holding its frame.",
          "Loopback TCP with a tungstenite server inside the harness; 2 s watchdog on every await.", "DESIGN.md §4 C20", "E2")
 
 NOT_BUILT = {}
